@@ -127,6 +127,53 @@ Section Oracles.
     destruct (origin ib) as [b c]. simpl in *. rewrite Hb, H1, H2, H3. reflexivity.
   Qed.
 
+  (** ---- the proof pool of a node: which state do the lookups see? ---- *)
+
+  (** a pool that does not memoise its view - or any pool over a ledger whose Copy() is the live
+      ledger - answers every question from the state committed by the previous block, whatever the
+      node's history of commits, restarts and earlier questions *)
+  Theorem pool_is_spec c :
+    d_memo_view c = false \/ snapshot_ledger c = false ->
+    forall evs n, pool_run H digest rule_validate recover c n evs
+                  = pool_spec H digest rule_validate recover (n_committed n) evs.
+  Proof.
+    intros Hc. assert (Hv : forall n, pool_view c n = n_committed n).
+    { intros n. unfold pool_view. destruct Hc as [-> | ->]; [reflexivity|]. rewrite andb_false_r. reflexivity. }
+    induction evs as [|e t IH]; intros n; [reflexivity|].
+    destruct e as [st| |ib pd]; simpl; rewrite IH; simpl; try reflexivity. rewrite Hv. reflexivity.
+  Qed.
+
+  Lemma pool_spec_nth cur evs : forall i ib pd,
+    nth_error evs i = Some (PCheck ib pd) ->
+    nth_error (pool_spec H digest rule_validate recover cur evs) i
+    = Some (Some (committed_at cur evs i, verify (committed_at cur evs i) ib pd)).
+  Proof.
+    revert cur. induction evs as [|e t IH]; intros cur i ib pd Hn; [destruct i; discriminate|].
+    destruct i as [|j].
+    - simpl in Hn. inversion Hn; subst e. reflexivity.
+    - simpl in Hn. destruct e as [st| |ib' pd']; simpl; apply IH; exact Hn.
+  Qed.
+
+  (** C03_master_rule_current over node histories: whenever question [i] about a locally
+      originated IBTP is answered OK, the first available rule BOUND IN THE STATE COMMITTED BY
+      THE PREVIOUS BLOCK accepted these bytes *)
+  Theorem master_rule_current_pool c n evs i ib p dec st :
+    d_memo_view c = false \/ snapshot_ledger c = false ->
+    nth_error evs i = Some (PCheck ib (PdBytes p dec)) ->
+    nth_error (pool_run H digest rule_validate recover c n evs) i = Some (Some (st, VOk)) ->
+    st = committed_at (n_committed n) evs i /\
+    (fst (origin ib) = ps_bxh st ->
+     H p = ib_proofhash ib /\
+     exists app r,
+       ps_chains st (snd (origin ib)) = Some app /\
+       master_rule st (snd (origin ib)) = Some r /\ r_available r = true /\ In r (ps_rules st (snd (origin ib))) /\
+       rule_validate (r_addr r) (snd (origin ib)) p (ib_id ib) (a_trust app) = Some true).
+  Proof.
+    intros Hc Hn Ha. rewrite (pool_is_spec c Hc) in Ha. rewrite (pool_spec_nth _ _ _ _ _ Hn) in Ha.
+    inversion Ha as [[Hst Hv]]. split; [reflexivity|]. intros Hb.
+    apply (master_rule_current _ ib p dec Hb). exact Hv.
+  Qed.
+
   (** no available rule, an unregistered chain, an absent proof or a hash mismatch reject *)
   Theorem rejects st ib :
     verify st ib PdAbsent = VErr 1 /\
@@ -232,3 +279,34 @@ Example rule_examples :
   c_verify st_ex {| ib_id := 6; ib_from_bxh := 1356; ib_from_chain := 50; ib_to_bxh := 1356; ib_to_chain := 51; ib_is_req := true; ib_proofhash := 902 |}
            (PdBytes 902 None) = VFalse.
 Proof. repeat split; reflexivity. Qed.
+
+(** a memoised view over a snapshot ledger: expected refutation.  Block 1 binds the
+    accept-everything rule (1), the node verifies an IBTP, block 2 binds the Fabric rule (2, errors
+    on junk); the junk proof is still accepted - until the node restarts *)
+Definition st_rule (r : N) : pstate :=
+  {| ps_bxh := 1356;
+     ps_chains := fun c => if c =? 50 then Some {| a_trust := 0; a_validators := None |} else None;
+     ps_rules := fun c => if c =? 50 then [{| r_addr := r; r_available := true; r_master := true |}] else [] |}.
+Definition cfg_memo := {| d_memo_view := true; snapshot_ledger := true |}.
+Definition pool_hist := [PCommit (st_rule 1); PCheck ib_local (PdBytes 901 None);
+                         PCommit (st_rule 2); PCheck ib_local (PdBytes 901 None);
+                         PRestart; PCheck ib_local (PdBytes 901 None)].
+Definition answers (l : list (option (pstate * vres))) : list (option vres) :=
+  map (fun a => match a with Some (_, v) => Some v | None => None end) l.
+
+Theorem memo_view_refuted :
+  answers (pool_run c_H c_digest c_rule c_recover cfg_memo {| n_committed := st_rule 0; n_view := None |} pool_hist)
+  = [None; Some VOk; None; Some VOk; None; Some (VErr 5)] /\
+  c_verify (st_rule 2) ib_local (PdBytes 901 None) = VErr 5 /\
+  master_accepts (st_rule 2) ib_local (PdBytes 901 None) = false.
+Proof. repeat split; reflexivity. Qed.
+
+(** the same history without the memory, and with the memory over the simple ledger *)
+Example pool_fresh_example :
+  answers (pool_run c_H c_digest c_rule c_recover {| d_memo_view := false; snapshot_ledger := true |}
+             {| n_committed := st_rule 0; n_view := None |} pool_hist)
+  = [None; Some VOk; None; Some (VErr 5); None; Some (VErr 5)] /\
+  answers (pool_run c_H c_digest c_rule c_recover {| d_memo_view := true; snapshot_ledger := false |}
+             {| n_committed := st_rule 0; n_view := None |} pool_hist)
+  = [None; Some VOk; None; Some (VErr 5); None; Some (VErr 5)].
+Proof. split; reflexivity. Qed.
